@@ -21,7 +21,7 @@ PROP = {'drive': ['Faults'],
                        'C18_parser_unaffected',
                        'C18_parser_error'],
  # budget = number of corpus fonts / table sets; every fault point k of each is enumerated
- 'areas': [('faults', 6, 40)],
+ 'areas': [('faults', 8, 40)],
  'thorough_seeds': 1,
  'rule': 'one case line = one block of up to 256 consecutive fault points k of one font/table set, one destination or '
          'source kind (distribution groups count single fault points); non-trivial = at least two tables',
@@ -37,6 +37,12 @@ PROP = {'drive': ['Faults'],
              'are C13',
              'cff.Read on truncated / failing sources is checked by direct predicate on the real code for every k '
              '(no Lean model of the CFF reader here: C13); the parser-level theorems cover the primitive it relies on',
+             'which tail offsets are needed: a ReaderAt is only accessed below the end of the last allocation, so a '
+             'ReaderAt failing at k >= that end is (rightly) accepted; a plain Reader is read to its end, so a stream '
+             'reporting any non-EOF error (generic, io.ErrUnexpectedEOF, alone or together with its last chunk) '
+             'after k < len(file) bytes must be rejected (D); a stream ending with EOF at k is the file cut at k and '
+             'must be rejected for k before the end of the last data-carrying table (D); cuts inside the padding after '
+             'it are observed only (G faults.tail, predicted exactly by the model)',
              'parser model: the source delivers f[0,k) and then ends; a source that returns n > 0 bytes together '
              'with a non-EOF error, or fails a read-ahead that merely touches k, makes operations fail earlier than '
              'needed (allowed by the property) and is not modelled'],
